@@ -10,6 +10,7 @@ The oracle reads the property off the implementation's answer alone:
   * extensible => 64-bit type,
   * `v_min()`/`v_max()` and the `MIN/MIN_T/MAX/MAX_T` constants equal the declared bounds.
 """
+import consts_stream
 import runner
 
 I64_MIN, I64_MAX, U64_MAX = -(2 ** 63), 2 ** 63 - 1, 2 ** 64 - 1
@@ -226,13 +227,15 @@ class InttypeStream(runner.Stream):
 
 class Spec(runner.Spec):
     prop = "C15"
-    streams = [InttypeStream()]
+    # `consts`: the MIN/MAX constants of the COMPILED zoo types (after the macro's re-parse of the
+    # attribute) against the bounds the ASN.1 source declares
+    streams = [InttypeStream(), consts_stream.ConstsFromSource("C15")]
     assumptions = [
         "bounds are i64 literals (what the parser can read); a bound outside i64 is taken for a value reference and the module is rejected (no type generated) - outside the property",
         "a 'constraint' with lower > upper is not an ASN.1 value range; such requests only feed the correspondence (casts), not the oracle",
         "64-bit window: signed [-2^63, 2^63-1] iff the constraint permits a negative value (lower bound MIN or < 0), else unsigned [0, 2^64-1]",
         "the `_` separators that format_number_nicely puts into the accessor bodies carry no meaning (Rust literal syntax); the harness strips them",
-        "MIN/MAX/MIN_T/MAX_T are read from AsnDefWriter::stringify applied to the Model<Rust> directly; the detour through the #[asn(integer(..))] attribute text is property C09's",
+        "MIN/MAX/MIN_T/MAX_T are read from AsnDefWriter::stringify applied to the Model<Rust> directly; the detour through the #[asn(integer(..))] attribute text is covered by the stream `consts` for the integer types of the compiled zoo (descriptor constants vs the source text; recorded deviations of the generator, findings of C08, are accepted as coded)",
         "Rust semantics of the mirrored functions is tied to the Lean mirror only by differential execution (stream `inttype`)",
     ]
     trusted_base = [
